@@ -22,7 +22,8 @@ RULE = ("seeded random reconfiguration histories (5-40 steps) on one long-lived 
 MANDATORY = ["sample_before_read:Sampler", "sample_before_read:QuickSampler", "same_U_different_heralds",
              "postselection_mutated_in_place", "param_set_between_reads", "circuit_edited_between_reads",
              "source_mutated_between_reads", "backend_swapped", "input_changed", "analyze_without_expected_after_expected",
-             "loss_added_in_place", "circuit_replaced_more_loss", "postselection_rule_on_ruled_mode"]
+             "loss_added_in_place", "circuit_replaced_more_loss", "postselection_rule_on_ruled_mode",
+             "tiny_reconfiguration"]
 DECIDING = ["mon.twin_distribution_reads", "mon.twin_sampling_calls", "mon.analyze_postconditions"]
 BUDGET = {"quick": 30, "thorough": 480}
 ASSUMPTIONS = ["a twin built from the current public settings is the reference; distributions compared to 1e-12, seeded "
@@ -145,7 +146,11 @@ def history(ctx, lw, rng, kind):
                 if params:
                     p = params[int(rng.integers(len(params)))]
                     v = p.get()
-                    p.set(float(rng.uniform(0.05, 0.95)) if 0 <= v <= 1 else pick_phase(rng))
+                    if rng.random() < 0.3 and isinstance(v, float) and 0.01 < v < 0.99:
+                        p.set(v * (1 + float(rng.choice([3e-4, -1e-5, 2e-7]))))
+                        ctx.bucket("tiny_reconfiguration")
+                    else:
+                        p.set(float(rng.uniform(0.05, 0.95)) if 0 <= v <= 1 else pick_phase(rng))
                     changed_since_obs = "param_set_between_reads"
             elif step == "input":
                 k = obj.circuit.input_modes
@@ -176,7 +181,12 @@ def history(ctx, lw, rng, kind):
                 changed_since_obs = "same_U_different_heralds"
             elif step == "source_mut":
                 which = str(rng.choice(["brightness", "purity", "indistinguishability"]))
-                setattr(obj.source, which, float(rng.uniform(0.6, 1.0)))
+                if rng.random() < 0.4:
+                    cur = getattr(obj.source, which)
+                    setattr(obj.source, which, max(0.51, cur * (1 - float(rng.choice([4e-4, 1e-5, 3e-7])))))
+                    ctx.bucket("tiny_reconfiguration")
+                else:
+                    setattr(obj.source, which, float(rng.uniform(0.6, 1.0)))
                 changed_since_obs = "source_mutated_between_reads"
             elif step == "source_new":
                 obj.source = emu.Source(brightness=float(rng.uniform(0.5, 1)))
